@@ -122,6 +122,44 @@ macro_rules! declare_storage_n {
                     self.destroyed.clear();
                 }
 
+                /// Verification hook: read-only structural dump of this storage.
+                #[cfg(gecs_verif)]
+                pub fn verif_dump(&self) -> crate::verif::Dump {
+                    unsafe {
+                        // SAFETY: The slot storage is valid up to capacity, entities up to len.
+                        let slots = self.slots.slice(self.capacity);
+                        let entities = self.entities.slice(self.len);
+                        crate::verif::Dump {
+                            version: self.version.get().get(),
+                            len: self.len,
+                            capacity: self.capacity,
+                            free_head: crate::verif::slot_index_raw(self.free_head),
+                            slots: slots.iter().map(|s| s.verif_raw()).collect(),
+                            entities: entities.iter().map(|e| e.into_any().raw()).collect(),
+                            #[cfg(feature = "events")]
+                            events: (self.created.len(), self.destroyed.len()),
+                            #[cfg(not(feature = "events"))]
+                            events: (0, 0),
+                        }
+                    }
+                }
+
+                /// Verification hook: preset every slot generation and the archetype
+                /// version of an EMPTY storage, so overflow boundaries become reachable.
+                #[cfg(gecs_verif)]
+                pub fn verif_preset_versions(&mut self, slot_version: u32, arch_version: u32) {
+                    assert!(self.len == 0, "verif_preset_versions needs an empty storage");
+                    let slot_version = std::num::NonZeroU32::new(slot_version).unwrap();
+                    let arch_version = std::num::NonZeroU32::new(arch_version).unwrap();
+                    unsafe {
+                        // SAFETY: The slot storage is valid up to capacity.
+                        for slot in self.slots.slice_mut(self.capacity).iter_mut() {
+                            slot.verif_set_version(crate::version::SlotVersion::new(slot_version));
+                        }
+                    }
+                    self.version = ArchetypeVersion::verif_new(arch_version);
+                }
+
                 /// Adds a new entity with the given components to this storage.
                 /// Returns a typed entity handle pointing to the added element.
                 ///
